@@ -122,7 +122,7 @@ def check(case):
         return G.rows_from_matrix(res)
 
     if case["op"] == "remove":
-        o = lib(utils.remove_edges, A, npint(k, k + len(A) + int(case.get("seed") or 0), narrow=True), **seed_kw)
+        o = lib(utils.remove_edges, A, npint(k, k + len(A) + int(case.get("seed") or 0)), **seed_kw)
         if k > m:
             must_raise(o, ValueError, "remove_edges(k > #edges)")
             lab.append("infeasible")
@@ -142,7 +142,7 @@ def check(case):
                 lab.append("boundary_max")
             lab.append("feasible")
     else:
-        o = lib(utils.add_edges, A, npint(k, k + len(A) + 1 + int(case.get("seed") or 0), narrow=True), **seed_kw)
+        o = lib(utils.add_edges, A, npint(k, k + len(A) + 1 + int(case.get("seed") or 0)), **seed_kw)
         if k > cap:
             must_raise(o, ValueError, "add_edges(k > capacity)")
             lab.append("infeasible")
